@@ -124,6 +124,11 @@ func fnExprJS(e *sx) string {
 	case "evd":
 		return "eval(" + strconv.Quote(fnBodyJS(a[0], a[1], a[2])) + ")"
 	case "evi":
+		// a host function that re-enters the VM: hostCall("f") = Otto.Call("f", nil), which runs f() as global code
+		if len(a[0].args) == 0 && len(a[1].args) == 0 && len(a[2].args) == 1 && a[2].args[0].name == "X" &&
+			a[2].args[0].args[0].name == "c" && a[2].args[0].args[0].args[0].name == "v" && len(a[2].args[0].args[0].args[1].args) == 0 {
+			return "hostCall(" + strconv.Quote(a[2].args[0].args[0].args[0].args[0].name) + ")"
+		}
 		// two spellings of an indirect call of eval, chosen by the shape of the term
 		if sxLen(e)%2 == 1 {
 			return "eval.call(null, " + strconv.Quote(fnBodyJS(a[0], a[1], a[2])) + ")"
